@@ -379,3 +379,39 @@ func TestConcurrentUse(t *testing.T) {
 		kit.Rec.Label("concurrent:" + cfg.policy)
 	})
 }
+
+// TestStringKeysAreCompared: a lookup returns the value set for THAT key - including keys that
+// an internal hash (the TinyLFU sketch hashes strings rune by rune) cannot tell apart: strings
+// that differ only in bytes that are not valid UTF-8, in case, or in trailing NULs.
+func TestStringKeysAreCompared(t *testing.T) {
+	pairs := [][2]string{{"Jos\xe9", "Jos\xe8"}, {"acct-\x00\x00\x00\x80", "acct-\x00\x00\x00\x81"}, {"\xff", "\xfe"}, {"abc", "ABC"}, {"k", "k\x00"}, {"", " "}}
+	var total int64
+	for _, policy := range policies {
+		for _, capacity := range []int{2, 99, 100, 128} {
+			for _, pr := range pairs {
+				c := cache.New[string, int](capacity).WithPolicy(cache.CachePolicy(policy)).Synchronous().Build()
+				c.Set(pr[0], 1)
+				c.Set(pr[1], 2)
+				v0, ok0 := c.Get(pr[0])
+				v1, ok1 := c.Get(pr[1])
+				total++
+				if !ok0 || !ok1 || v0 != 1 || v1 != 2 || c.Len() != 2 {
+					msg := fmt.Sprintf("cache[%s/%d] with keys %q and %q: Get returned (%d,%v) and (%d,%v), Len %d - expected 1 and 2 under two distinct keys", policy, capacity, pr[0], pr[1], v0, ok0, v1, ok1, c.Len())
+					kit.Rec.Violation(msg)
+					t.Fatalf("C15 violated: %s", msg)
+				}
+				if !c.Delete(pr[0]) {
+					t.Fatalf("C15 violated: Delete(%q) reported absent", pr[0])
+				}
+				if v, ok := c.Get(pr[1]); !ok || v != 2 {
+					msg := fmt.Sprintf("cache[%s/%d]: deleting %q removed %q as well", policy, capacity, pr[0], pr[1])
+					kit.Rec.Violation(msg)
+					t.Fatalf("C15 violated: %s", msg)
+				}
+				c.Close()
+			}
+		}
+	}
+	kit.Rec.Enumerated(total, total)
+	kit.Rec.LabelN("string-key-pairs", total)
+}
